@@ -322,6 +322,12 @@ def post_check(counters, tier):
     if badc + goodc >= 20 and badc > 0.25 * (badc + goodc):
         return [('lh:chain-visibility-rooms:initial-estimate-failures-far-above-the-known-rate',
                  {'chain_rooms': badc + goodc, 'failed': badc})]
+    # generic rooms (random poses; full, random partial and windowed visibility): about 1 in 3000 on the repaired tree
+    bado = counters.get('mon.other_rooms_hit_by_the_known_finding', 0)
+    goodo = counters.get('mon.rooms_solved', 0) - good - goodc
+    if bado >= 5 and bado > 0.02 * (bado + goodo):
+        return [('lh:generic-rooms:initial-estimate-failures-far-above-the-known-rate',
+                 {'generic_rooms': bado + goodo, 'failed': bado, 'known_rate': 1 / 3000.0})]
     return []
 
 
